@@ -897,6 +897,23 @@ def rule_revision_pairs(ctx):
         for call in fn.calls():
             callee = F.strip_targs(call.get("callee") or "")
             if not callee.startswith(lp):
+                # a helper that asks the questions for the caller (`usable_xy(PD, obs->from())`): its receivers
+                # count as receivers of the caller, one per call
+                g = fx.functions.get(call.get("calleeKey"))
+                if g is not None and g.body is not None and g.file == fn.file and g.key != fn.key and \
+                        F.strip_targs(g.cls or "") != cls:
+                    hs = {}
+                    for c2 in g.calls():
+                        cal2 = F.strip_targs(c2.get("callee") or "")
+                        if cal2.startswith(lp) and (cal2[len(lp):] in pairs or cal2[len(lp):] in pairs.values()):
+                            o2 = F.call_object(c2)
+                            hs.setdefault(F.expr_text(o2) if o2 is not None else "?", set()).add(cal2[len(lp):])
+                    args = ",".join(F.expr_text(a) for a in F.call_args(call))
+                    for r2, names2 in hs.items():
+                        r = "%s(%s):%s" % (g.name, args, r2)
+                        by_recv.setdefault(r, set()).update(names2)
+                        for nm in names2:
+                            where.setdefault((r, nm), fn.where(call))
                 continue
             name = callee[len(lp):]
             if name not in pairs and name not in pairs.values():
